@@ -56,6 +56,18 @@ def concatenate(visuals, *args):
     else:
         visuals = np.array(visuals)
 
+    if (
+        all(v.kind == "texture" and v.uv is None for v in visuals)
+        and len({hash(v.material) for v in visuals}) == 1
+    ):
+        # one material and nothing per- vertex to combine: don't invent
+        # texture coordinates which needs the vertex count of a mesh that
+        # the subsets of a mesh (`face_subset`) are not attached to
+        result = visuals[0].copy()
+        if all(v.face_materials is not None for v in visuals):
+            result.face_materials = [i for v in visuals for i in v.face_materials]
+        return result
+
     # if there are any texture visuals convert all to texture
     if any(v.kind == "texture" for v in visuals):
         # first collect materials and UV coordinates
